@@ -220,6 +220,9 @@ func init() {
 					return tuple{nilF, 0, fr.i.newError(fr, "number has no digits")}
 				}
 			}
+			if e.cannotBeNumeric(p) {
+				return tuple{nilF, 0, fr.i.newError(fr, "number has no digits")}
+			}
 			panic(abortPath{why: "big.ParseFloat of composite symbolic string", kind: "unsupported"})
 		}
 		panic("big.ParseFloat")
